@@ -122,8 +122,8 @@ def run_set(ctx, item, nvals, ninputs):
     values, inputs = [], []
     for ti, t in enumerate(msgs):
         for k in range(nvals):
-            storage = (k % 3 == 2)
-            values.append((ti, "storage" if storage else "in-range", M.gen_value(R, t, in_range=not storage, maxlen=R.choice([2, 8, 30]))))
+            mode = ["in-range", "py-storage", "storage"][k % 3]
+            values.append((ti, mode, M.gen_value(R, t, in_range={"in-range": True, "py-storage": "py", "storage": False}[mode], maxlen=R.choice([2, 8, 30]))))
         values.append((ti, "in-range", M.max_value(t)))
         for label, data in W.des_inputs(R, t, ninputs):
             inputs.append((ti, label, data))
